@@ -109,7 +109,7 @@ def covered : List Body :=
    VaxisModel.Gen.TermBodies.body_dch, VaxisModel.Gen.TermBodies.body_scrollUp, VaxisModel.Gen.TermBodies.body_scrollDown,
    VaxisModel.Gen.TermBodies.body_ich, VaxisModel.Gen.TermBodies.body_print,
    VaxisModel.Gen.TermBodies.body_rep, VaxisModel.Gen.TermBodies.body_cht, VaxisModel.Gen.TermBodies.body_cbt,
-   VaxisModel.Gen.TermBodies.body_tbc, VaxisModel.Gen.TermBodies.body_hts]
+   VaxisModel.Gen.TermBodies.body_tbc, VaxisModel.Gen.TermBodies.body_hts, VaxisModel.Gen.TermBodies.body_resize]
 
 /-! Tactics: `body_norm` evaluates `evalBody` on a concrete body (first the interpreter itself, with
 the comparisons still folded so that their `Decidable` instances are built from normalised
